@@ -48,9 +48,7 @@ def Residual (x : AnyObj) (r : List AnyObj) : Prop :=
       (Icmp.Icmp6.extAllowed p.type = true →
         Icmp.ghostFree (Icmp.byteAt (p.unBytes (Icmp.Icmp4.innerOf (sizeOfStack r))) 0 * 8) (tailBytes r))
   | .app _ => True                                              -- ARP, STP, VXLAN, RTP, BootP, DHCP, DHCPv6: nothing excluded
-  | .wifi (.eapol e) =>                                         -- a key frame that fits its 16-bit length field, and not
-      (e.key = [] → Wifi.Eapol.beAt e.sub (Wifi.Eapol.keyLenOff e.rsn) 2 = 0) ∧     -- "key length > bytes present"
-      e.hdrSize + sizeOfStack r < 65540
+  | .wifi (.eapol e) => e.hdrSize + sizeOfStack r < 65540       -- fits the 16-bit EAPOL length field
   | .wifi _ => True                                             -- RadioTap, the Dot11 classes: nothing excluded
 
 def ResidualAll : List AnyObj → Prop
@@ -61,7 +59,7 @@ def ResidualAll : List AnyObj → Prop
 structure FirstOK (cls : String) (b : Bytes) (o : AnyObj) (inner : Inner) : Prop where
   inv : registryPreds.Inv o
   ser : registryPreds.Ser o
-  side : ∀ r, Residual o r → Side o r
+  side : ∀ r, Residual o r → (inner = .none → r = []) → Side o r
   link : LinkInnerA o inner
   name : EntryName cls o
   nib : NibOf o b
@@ -166,45 +164,45 @@ theorem parseOne_firstOK (cls : String) (b : Bytes) (o : AnyObj) (inner : Inner)
   · -- L2
     have hs := hl2 x rfl
     have hlk := L2.l2_parse_link cls b x inner hc hx hs
-    exact ⟨hgood.1, hs, fun _ _ => trivial, l2_parse_linkA cls b x inner hc hx hs, .inl hlk.2.1.symm, trivial, trivial⟩
+    exact ⟨hgood.1, hs, fun _ _ _ => trivial, l2_parse_linkA cls b x inner hc hx hs, .inl hlk.2.1.symm, trivial, trivial⟩
   · -- Ip
     have hser := Ip.ip_parse_serializable cls b x inner hc hx
     simp only [Ip.classes, List.mem_cons, List.mem_nil_iff, or_false] at hc
     rcases hc with hc | hc | hc <;> subst hc <;> simp only [Ip.parse] at hx <;>
       rcases Ip.map_ok hx with ⟨⟨y, j⟩, hy, hr⟩ <;> injection hr with e1 e2 <;> subst e1 <;> subst e2
-    · exact ⟨hgood.1, hser, fun r hr => ⟨(Ip.ip4_parse_inv b y j hy).2.1, hr⟩, ip4_parse_linkA b y j hy, .inl rfl,
+    · exact ⟨hgood.1, hser, fun r hr _ => ⟨(Ip.ip4_parse_inv b y j hy).2.1, hr⟩, ip4_parse_linkA b y j hy, .inl rfl,
         ip4_parse_version b y j hy, trivial⟩
-    · exact ⟨hgood.1, hser, fun _ _ => (Ip.ah_parse_inv b y j hy).2, ah_parse_linkA b y j hy, .inl rfl, trivial, trivial⟩
-    · exact ⟨hgood.1, hser, fun _ _ => trivial, esp_parse_linkA b y j hy, .inl rfl, trivial, trivial⟩
+    · exact ⟨hgood.1, hser, fun _ _ _ => (Ip.ah_parse_inv b y j hy).2, ah_parse_linkA b y j hy, .inl rfl, trivial, trivial⟩
+    · exact ⟨hgood.1, hser, fun _ _ _ => trivial, esp_parse_linkA b y j hy, .inl rfl, trivial, trivial⟩
   · -- Ip6
     simp only [Ip6.classes, List.mem_cons, List.mem_nil_iff, or_false] at hc
     subst hc
     simp only [Ip6.parse] at hx
     rcases Ip.map_ok hx with ⟨⟨y, j⟩, hy, hr⟩
     injection hr with e1 e2; subst e1; subst e2
-    exact ⟨hgood.1, trivial, fun r hr => ⟨(Ip6.ipv6_parse_inv b y j hy).2, hr⟩, ip6_parse_linkA b y j hy, .inl rfl,
+    exact ⟨hgood.1, trivial, fun r hr _ => ⟨(Ip6.ipv6_parse_inv b y j hy).2, hr⟩, ip6_parse_linkA b y j hy, .inl rfl,
       ip6_parse_version b y j hy, trivial⟩
   · -- Icmp
     have hser := Icmp.icmp_family_parse_serializable cls b x inner hc hb hx
     simp only [Icmp.classes, List.mem_cons, List.mem_nil_iff, or_false] at hc
     rcases hc with hc | hc <;> subst hc <;> simp only [Icmp.parse] at hx <;>
       rcases Ip.map_ok hx with ⟨⟨y, j⟩, hy, hr⟩ <;> injection hr with e1 e2 <;> subst e1 <;> subst e2
-    · exact ⟨hgood.1, hser, fun _ hr => ⟨icmp_parse_small b y j hy, hr.1, hr.2⟩, icmp_parse_linkA b y j hy, .inl rfl, trivial,
+    · exact ⟨hgood.1, hser, fun _ hr _ => ⟨icmp_parse_small b y j hy, hr.1, hr.2⟩, icmp_parse_linkA b y j hy, .inl rfl, trivial,
         trivial⟩
-    · exact ⟨hgood.1, hser, fun _ hr => ⟨icmp6_parse_small b y j hy, hr.1, hr.2⟩, icmp6_parse_linkA b y j hy, .inl rfl, trivial,
+    · exact ⟨hgood.1, hser, fun _ hr _ => ⟨icmp6_parse_small b y j hy, hr.1, hr.2⟩, icmp6_parse_linkA b y j hy, .inl rfl, trivial,
         trivial⟩
   · -- Transport
     have hser := Transport.transport_parse_serializable cls b x inner hc hx
     simp only [Transport.classes, List.mem_cons, List.mem_nil_iff, or_false] at hc
     rcases hc with hc | hc <;> subst hc <;> simp only [Transport.parse] at hx <;>
       rcases Ip.map_ok hx with ⟨⟨y, j⟩, hy, hr⟩ <;> injection hr with e1 e2 <;> subst e1 <;> subst e2
-    · exact ⟨hgood.1, hser, fun _ _ => trivial, udp_parse_linkA b y j hy, .inl rfl, trivial, trivial⟩
-    · exact ⟨hgood.1, hser, fun _ _ => (Transport.tcp_parse_ok b y j hy).2.1, tcp_parse_linkA b y j hy, .inl rfl, trivial,
+    · exact ⟨hgood.1, hser, fun _ _ _ => trivial, udp_parse_linkA b y j hy, .inl rfl, trivial, trivial⟩
+    · exact ⟨hgood.1, hser, fun _ _ _ => (Transport.tcp_parse_ok b y j hy).2.1, tcp_parse_linkA b y j hy, .inl rfl, trivial,
         trivial⟩
   · -- App
     have hser := App.app_parse_serializable cls b x inner hc hb hx
     obtain ⟨hside, hlink, hname⟩ := app_parse_facts cls b x inner hc hx
-    refine ⟨hgood.1, hser, fun r _ => hside r, hlink, .inl hname.symm, ?_, ?_⟩
+    refine ⟨hgood.1, hser, fun r _ _ => hside r, hlink, .inl hname.symm, ?_, ?_⟩
     · cases x <;> trivial
     · cases x <;> trivial
   · -- Wifi
@@ -212,14 +210,14 @@ theorem parseOne_firstOK (cls : String) (b : Bytes) (o : AnyObj) (inner : Inner)
     cases x with
     | dot11 d =>
       obtain ⟨hside, hlink, hname⟩ := dot11_parse_facts cls b d inner hc hx
-      exact ⟨hgood.1, hser, fun r _ => hside r, hlink, hname, trivial, (hside []).2⟩
+      exact ⟨hgood.1, hser, fun r _ _ => hside r, hlink, hname, trivial, (hside []).2⟩
     | eapol e =>
-      obtain ⟨hk, hlink, hname⟩ := eapol_parse_facts_all cls b e inner hx
-      exact ⟨hgood.1, hser, fun r hr => ⟨hk, hr.1, hr.2⟩, hlink, hname, trivial, trivial⟩
+      obtain ⟨hk, hsh, hlink, hname⟩ := eapol_parse_facts_all cls b e inner hx
+      exact ⟨hgood.1, hser, fun r hr hin => ⟨hk, fun hke => (hsh hke).imp id hin, hr⟩, hlink, hname, trivial, trivial⟩
     | radiotap t =>
       obtain ⟨hcls, hp⟩ := wifi_parse_radiotap cls b t inner hx
       obtain ⟨hside, hlink⟩ := radiotap_parse_facts b t inner hp
-      exact ⟨hgood.1, hser, fun _ _ => hside, hlink, .inl hcls, trivial, trivial⟩
+      exact ⟨hgood.1, hser, fun _ _ _ => hside, hlink, .inl hcls, trivial, trivial⟩
 
 /-- the first layer of a parsed chain is of a class the entry `cls` reaches (`EntryName`: the class itself, or the one a
     factory entry selected from the bytes), an IP / IPv6 header's version is the first nibble of the buffer, and the layer
@@ -247,9 +245,9 @@ theorem parse_stackable_all : ∀ (fuel : Nat) (cls : String) (b : Bytes) (os : 
         rw [hp] at h
         simp only at h
         -- the first layer, once we know what follows it
-        have hfirst : ∀ rest, os = o :: rest →
+        have hfirst : ∀ rest, os = o :: rest → (inner = .none → rest = []) →
             (isRaw o = false ∧ FirstOK cls b o inner ∧ Side o rest) ∨ (∃ p, o = .raw p ∧ cls = "RawPDU" ∧ inner = .none) := by
-          intro rest hos
+          intro rest hos hin
           subst hos
           have hr : Residual o rest := hres.1
           cases ho : isRaw o with
@@ -259,19 +257,19 @@ theorem parse_stackable_all : ∀ (fuel : Nat) (cls : String) (b : Bytes) (os : 
             | _ => cases ho
           | false =>
             have hf := parseOne_firstOK cls b o inner hb ho (fun z e => by subst e; exact hr) hp
-            exact .inl ⟨rfl, hf, hf.side rest hr⟩
+            exact .inl ⟨rfl, hf, hf.side rest hr hin⟩
         cases inner with
         | none =>
           injection h with h
           subst h
-          rcases hfirst [] rfl with ⟨hx, hf, hside⟩ | ⟨p, rfl, hc, _⟩
+          rcases hfirst [] rfl (fun _ => rfl) with ⟨hx, hf, hside⟩ | ⟨p, rfl, hc, _⟩
           · exact ⟨(stackableAll_cons hx).mpr ⟨⟨hf.inv, hf.ser, hside, hf.link⟩, trivial⟩, _, _, rfl, hf.name, hf.nib,
               fun _ => hf.cov⟩
           · exact ⟨rfl, _, _, rfl, .inl hc, trivial, fun h => by cases h⟩
         | raw pb =>
           injection h with h
           subst h
-          rcases hfirst [.raw pb] rfl with ⟨hx, hf, hside⟩ | ⟨p, rfl, _, hi⟩
+          rcases hfirst [.raw pb] rfl (fun h => by cases h) with ⟨hx, hf, hside⟩ | ⟨p, rfl, _, hi⟩
           · exact ⟨(stackableAll_cons hx).mpr ⟨⟨hf.inv, hf.ser, hside, hf.link⟩, rfl⟩, _, _, rfl, hf.name, hf.nib,
               fun _ => hf.cov⟩
           · cases hi
@@ -283,7 +281,7 @@ theorem parse_stackable_all : ∀ (fuel : Nat) (cls : String) (b : Bytes) (os : 
             rw [hrec] at h
             injection h with h
             subst h
-            rcases hfirst ls rfl with ⟨hx, hf, hside⟩ | ⟨p, rfl, _, hi⟩
+            rcases hfirst ls rfl (fun h => by cases h) with ⟨hx, hf, hside⟩ | ⟨p, rfl, _, hi⟩
             · rcases ih name pb ls (by omega) hrec hres.2 with ⟨hst, hd, t, rfl, hhd⟩
               obtain ⟨_, hnr, hlk⟩ := hf.link
               have hdraw : isRaw hd = false := by
@@ -306,7 +304,7 @@ theorem parse_stackable_all : ∀ (fuel : Nat) (cls : String) (b : Bytes) (os : 
             · rename_i hfb
               injection h with h
               subst h
-              rcases hfirst [.raw pb] rfl with ⟨hx, hf, _⟩ | ⟨p, rfl, _, hi⟩
+              rcases hfirst [.raw pb] rfl (fun h => by cases h) with ⟨hx, hf, _⟩ | ⟨p, rfl, _, hi⟩
               · rw [hf.link.1] at hfb
                 simp at hfb
               · cases hi
